@@ -884,6 +884,7 @@ class RpcServer:
                     self._external_config,
                     shm=static_shm or cached_shm,
                     attach_shm=lambda md: _maybe_attach_shm(md, self._transport_kind),
+                    answer_malformed=True,
                 )
             except pa.ArrowInvalid as exc:
                 with contextlib.suppress(BrokenPipeError, OSError):
